@@ -57,10 +57,11 @@ func c09Programs() []c09Prog {
 func c09Emit(w *emit.Writer, label string, cs c01issCase, o *c01issObs) {
 	rec := cs
 	rec.Policy, rec.Script = "script", o.Sched
-	d := map[string]any{"class": cs.Class, "program": label, "threads": len(cs.Threads), "faults": len(cs.Faults), "steps": len(o.Steps),
+	d := map[string]any{"class": cs.Class, "program": label, "backend": cs.Backend, "threads": len(cs.Threads), "faults": len(cs.Faults), "steps": len(o.Steps),
 		"held": o.Held, "recorded": o.Recorded, "deadlock": o.Deadlock}
-	w.Add(emit.Case{Desc: d, In: rec, Obs: o, Wire: c01issWire(9, o), Nontrivial: len(cs.Faults) > 0, Key: fmt.Sprint(label, len(cs.Threads), cs.Faults, cs.CancelWait, o.Sched)})
+	w.Add(emit.Case{Desc: d, In: rec, Obs: o, Wire: c01issWire(9, o), Nontrivial: len(cs.Faults) > 0, Key: fmt.Sprint(label, cs.Backend, len(cs.Threads), cs.Faults, cs.CancelWait, o.Sched)})
 	w.Hist("program=" + label)
+	w.Hist("backend=" + map[string]string{"": "memory", "file": "file"}[cs.Backend])
 	w.Hist("class=" + cs.Class)
 	w.Hist(fmt.Sprintf("threads=%d", len(cs.Threads)))
 	for _, s := range o.Steps {
@@ -176,8 +177,63 @@ func runC09(tier string, seed int64, outdir string, replay string) error {
 			}
 		}
 	}
+	// the same on the real FileStorage (lock files, polling) behind the gate: every op index x fault for
+	// one instance; with a second instance queueing (each hand-over costs up to one poll interval of
+	// FileStorage.Lock, 1 s) a few plans per program
+	fileTwo := map[string]bool{"renew-async": true, "clean-interval-old": true, "acct-register-callback": true}
+	nfile := 0
+	for _, p := range c09Programs() {
+		base := mk(p, 1)
+		base.Backend = "file"
+		o, err := c01RunIssCase(base)
+		if err != nil {
+			return fmt.Errorf("%s (file): %v", p.Label, err)
+		}
+		c09Emit(w, p.Label, base, o)
+		n := len(o.Steps)
+		for k := 0; k < n; k++ {
+			isUnlock := c09OpKindOf(o.Steps[k].Desc) == "Unlock"
+			for f := c01fErr; f <= c01fPanic; f++ {
+				cs := mk(p, 1)
+				cs.Backend = "file"
+				cs.Faults = map[string]int{fmt.Sprintf("0:%d", k): f}
+				if isUnlock && f != c01fCancel {
+					cs.Class = "fault-at-unlock"
+				}
+				oo, err := c01RunIssCase(cs)
+				if err != nil {
+					return fmt.Errorf("%s (file) fault %d@%d: %v", p.Label, f, k, err)
+				}
+				c09Emit(w, p.Label, cs, oo)
+				nfile++
+			}
+		}
+		if (p.Thread.Prog == "ari" && p.Thread.Newer) || (p.Thread.Prog == "acct" && p.AcctSeed["acct@example.com"] == "full") {
+			continue
+		}
+		if tier != "thorough" && !fileTwo[p.Label] {
+			continue
+		}
+		for v := 0; v < 3; v++ {
+			cs := mk(p, 2)
+			cs.Backend = "file"
+			cs.AllowUnlockFault = false
+			switch v {
+			case 1:
+				cs.CancelWait = map[string]int{"0": 1, "1": 1}
+			case 2:
+				cs.Faults = map[string]int{fmt.Sprintf("0:%d", n/2): c01fPanic, fmt.Sprintf("1:%d", n/2): c01fPanic}
+			}
+			oo, err := c01RunIssCase(cs)
+			if err != nil {
+				return fmt.Errorf("%s (file) two instances, variant %d: %v", p.Label, v, err)
+			}
+			c09Emit(w, p.Label, cs, oo)
+			nfile++
+		}
+	}
 	w.Meta.Exhaustive = true
-	w.Meta.Universe = fmt.Sprintf("%d operations/configurations x every op index of the fault-free trace x {error, cancel, panic} x {1, 2 threads}, plus the second request cancelled while waiting after 0/2/4 steps x {no fault, error, cancel, panic in the holder} = %d runs on the in-memory Locker (Unlock failures only single-threaded); plus random two-fault plans", len(c09Programs()), total)
+	w.Meta.Universe = fmt.Sprintf("%d operations/configurations x every op index of the fault-free trace x {error, cancel, panic} x {1, 2 threads}, plus the second request cancelled while waiting after 0/2/4 steps x {no fault, error, cancel, panic in the holder} = %d runs on the in-memory Locker (Unlock failures only single-threaded); plus random two-fault plans; on the gated FileStorage every op index x fault for one instance and three two-instance plans for %d programs = %d runs", len(c09Programs()), total, len(fileTwo), nfile)
 	// random plans with two or three faults (paths only reachable after a first fault: retries, rollbacks)
 	r := rand.New(rand.NewSource(seed))
 	nr := 300
